@@ -414,6 +414,15 @@ func c16(e *Env) {
 				}
 				w.Stat("fault.event-burst")
 			}
+			if c.Choose("control-lost-during-refresh", 4) == 3 {
+				// the control connection is lost at the moment the refresh for the latest event is
+				// due (its queries are in flight or about to be): the reconnect has to make up for it
+				w.RunUntil(func() bool { return false }, refreshWindow)
+				for _, bc := range append([]*world.BackendConn(nil), w.ControlConns...) {
+					bc.Reset("fault: control connection lost while a refresh is due")
+				}
+				e.Res.Stats["probe.c16.control_lost_during_refresh"]++
+			}
 			w.RunUntil(func() bool { return false }, time.Duration(c.Choose("between", 20))*time.Second)
 		}
 		if w.Stopped() {
